@@ -153,7 +153,7 @@ EXPECT_PROBES = ("executed", "wiring_error", "cycle", "fan_in", "ext_plus_wire",
                  "static_off_unwired_handlerless_module", "caps_answer_edited", "caps_spec_reused",
                  "connect_verdict_differs_for_same_named_output_port", "dotted_names_two_wired_ports_one_flat_key",
                  "dotted_names_unwired_port_shares_flat_key_with_wired_one", "external_seed_equals_wired_value",
-                 "diagram_built_through_constructor", "diagram_built_as_copy")
+                 "diagram_built_through_constructor", "diagram_built_as_copy", "static_flag_differs_between_executes")
 
 
 class HandlerBoom(RuntimeError):
@@ -363,6 +363,8 @@ def _sampled(rng, tier):
                 post.append(["reg", rng.choice(un), _behaviour(rng, 0.1)])
     # modules created by the second phase travel inside their "mod" entry
     late = {e[1] for e in post if e[0] == "mod"}
+    if rng.random() < 0.3:                          # flag off for the first call only, default for the second
+        plan["config"]["static"], plan["config"]["static2"] = False, True
     plan["modules"] = [md for j, md in enumerate(modules) if j not in late]
     plan["post"] = [["mod", modules[e[1]]] if e[0] == "mod" else e for e in post]
     return plan
@@ -376,6 +378,8 @@ def gen(rng, tier, i):
 def simplify(plan):
     mods = plan["modules"]
     cfg = plan["config"]
+    if cfg.get("static2") is not None:
+        yield {**plan, "config": {k_: v for k_, v in cfg.items() if k_ != "static2"}}
     if cfg.get("static") is False:
         yield {**plan, "config": {**cfg, "static": True}}
     if cfg.get("caps_edit", "none") != "none":
@@ -935,6 +939,7 @@ class _World:
 
 # --------------------------------------------------------------------------- one run
 def run(plan, k):
+    cfg = plan["config"]
     k.key = [plan["config"], plan["modules"], plan["ops"], plan["pre"], plan.get("post")]
     scope = [seams.src("operon_ai/core/wiring_runtime.py"), seams.src("operon_ai/core/wagent.py")]
     with SeqTracer(k, scope, STEP_BUDGET) as tr:
@@ -973,6 +978,9 @@ def run(plan, k):
                     w.mods[j]["handler"] = list(e[2])
                     w.register(j)
         w.capabilities()
+        if cfg.get("static2") is not None:        # the flag is a per-call argument: it may differ between the two calls
+            w.static = bool(cfg["static2"])
+            k.probe("static_flag_differs_between_executes")
         k.probe("second_execute")
         if late_wire:
             k.probe("second_execute_after_late_wire")
